@@ -834,6 +834,7 @@ func (ex *Exec) havocRecorded(st *State, r *recorder) {
 	}
 	if r.all {
 		ex.havocAllHeap(st, "loop")
+		ex.reassumeObjInvs(st)
 		return
 	}
 	keys := make([]string, 0, len(r.heap))
